@@ -22,6 +22,14 @@ CLAIMED = {
  "C07": core("Model invariants C07_NoDeadReachable / DeadExact / ResurrectHolds; in the real crate every MarkedArena handed out is inspected (is_dead for every accessible object and weak target), resurrections chosen by TLC are performed, and the monitor checks dead<=>unreachable (when no mutation since marking began), resurrect's result, survival of the resurrected closure through the cycle and the return to Marking."),
  "C08": core("Action property C08_PhaseProtocol on the model; the same PhaseOK/MarkedOK tables judge every recorded call (kind, phase before, phase after, MarkedArena returned) and every callback of the real crate."),
  "C11": core("The model's Next is extended with trace panics (k-th Collect::trace invocation of a call, after j children, for objects and for the root), callbacks that panic after their last step (mutate, mutate_root, map_root, try_map_root), try_map_root returning Err and failing Arena::new / try_new constructors; ALL invariants of C01-C07 are required in every post-fault state.  Each fault class is replayed in the real crate with the panic injected at exactly that trace call (catch_unwind), the behaviour continues, and the C01-C05 monitor rules plus 'a consumed arena releases everything' judge the recorded trace."),
+ "C09": {"engine": "pacing", "category": "model_checking", "design_ref": "DESIGN.md 3.3, 6 (C09)",
+   "text": "MC_Pacing.tla is the collector model with the crate's real debt arithmetic (integers scaled by 16, exact for dyadic pacings); TLC checks collect_debt-pays, stop-or-paid, stop-the-world, the rho bound (with the antecedent 'woke with positive debt') and the sleep promise for four pacings over every history of bounded length.  Every emitted behaviour is replayed in the real crate with EQUALITY of allocation_debt()*16 and the Gc count after every operation; a seeded random driver (heaps up to 64 roots, bursts, all-survive / all-garbage / shells / mixed workloads, random dyadic pacings incl. stop-the-world and rho = 15/16) explores larger H; the monitor's C09 rules judge every recorded call.",
+   "note": "Trusted base: TLC, the harness. Equality of debts only for dyadic factors; the rho bound is exhaustive for 2-object heaps only and explored (not proved) beyond; sleep rule applied after atomic cycles only (weaker reading).",
+   "technique": "TLC model checking of MC_Pacing.tla (exact integer debt arithmetic) + replay with exact debt equality + random driver traces validated by TLC against GcMonitor.tla"},
+ "C10": {"engine": "pacing", "category": "model_checking", "design_ref": "DESIGN.md 3.3, 6 (C10), 7 (F1, F2)",
+   "text": "Counters live in the same heap record as the collector model, bumped where the code bumps them; a guarded subtraction sets a fault flag so that an underflow in the design is a TLC counterexample (this is how F1 shows without the repair).  TLC checks zero-when-empty, exact adjust_debt, 'mutators never pay' (finding F2 carved out by name) and no-counter-fault; the real crate is held to count = outstanding blocks, finite non-negative debt, zero debt when empty, exact adjustment, monotone debt across callbacks and no arithmetic panic on EVERY recorded trace of the core and pacing engines (debug and release builds), including barriers on marked objects of non-tracing types and trace panics.",
+   "note": "Known finding F2 (forward barriers that mark are credited mark_factor) is reported as KNOWN-FINDING via rule C10.r5f; any other decrease is a violation. Equality claims only for dyadic pacings.",
+   "technique": "TLC model checking of MC_Pacing.tla / MC_GcHeap.tla with counter-fault flag + TLC trace validation of recorded executions against GcMonitor.tla"},
 }
 
 checks = []
@@ -53,6 +61,9 @@ m = {
            "baseline_off_cmd": "cd /repo && cargo test --workspace --no-fail-fast --offline",
            "source_commits": hook_commits, "add_only": True},
  "engines": [
+   {"name": "pacing", "path": "/verif/spec/MC_Pacing.tla /verif/spec/GcHeap.tla /verif/spec/GcMonitor.tla /verif/harness/src/driver.rs",
+    "serves_properties": ["C09", "C10"],
+    "kind_free_text": "the collector model with exact (scaled-integer) debt arithmetic checked by TLC; behaviours replayed with equality of debts; seeded random driver; traces validated by TLC against the monitor"},
    {"name": "core", "path": "/verif/spec/GcHeap.tla /verif/spec/MC_GcHeap.tla /verif/spec/GcMonitor.tla /verif/harness /verif/runner",
     "serves_properties": [c["property_id"] for c in checks if c["engine"] == "core"],
     "kind_free_text": "implementation-shaped TLA+ model checked by TLC; TLC-emitted behaviours replayed through the real crate; recorded traces validated by TLC against a property-shaped TLA+ monitor"}],
